@@ -371,6 +371,10 @@ fn scale() -> impl Strategy<Value = f64> {
         3 => prop::sample::select(vec![0.1, 1.1, 3.3, 123.456, 1.0, 0.7, 1e-3, 2.5e4]),
         3 => (1u32..(1 << 24), -20i32..=20).prop_map(|(m, e)| m as f64 / (1 << 23) as f64 * crate::fl::pow2(e)),
         1 => (1u32..(1 << 24), -20i32..=20).prop_map(|(m, e)| -(m as f64) / (1 << 23) as f64 * crate::fl::pow2(e)),
+        // sums so small that the compensation terms are subnormal (f32: scale 2^-122..2^-95; f64: 2^-1015..2^-960)
+        // and so large that n x is near the top of the range
+        1 => (1u32..(1 << 24), any::<bool>(), 0i32..=27).prop_map(|(m, small32, d)| m as f64 / (1 << 23) as f64 * crate::fl::pow2(if small32 { -122 + d } else { -1015 + 2 * d })),
+        1 => (1u32..(1 << 24), 0i32..=20).prop_map(|(m, d)| m as f64 / (1 << 23) as f64 * crate::fl::pow2(90 - d)),
     ]
 }
 pub fn strategy(max_n: u32) -> impl Strategy<Value = Case> {
@@ -408,6 +412,11 @@ pub fn run(run: &mut Run) {
                 }
                 let chunk = if history == 4 { (n / 2000).max(1) } else { [1u32, 7, 1000][(pattern as usize + history as usize) % 3] };
                 jobs.push(Case { f32: f32_, pattern, n, seed: g.next(), c: X([0.1, 1.1, 123.456, 0.7][(pattern as usize) % 4]), history, chunk });
+                if n <= 300_000 && history == 0 {
+                    // the same stream at a magnitude where the compensation is subnormal
+                    let tiny = if f32_ { 1.1e-36 } else { 1.1 * crate::fl::pow2(-1000) };
+                    jobs.push(Case { f32: f32_, pattern, n, seed: g.next(), c: X(tiny), history, chunk });
+                }
             }
         }
     }
